@@ -87,6 +87,11 @@ mod msgq {
             self.capacity.saturating_sub(self.len_bytes)
         }
 
+        #[cfg(librqbit_utp_verif)]
+        pub fn verif_len_bytes(&self) -> usize {
+            self.len_bytes
+        }
+
         #[cfg(test)]
         pub fn is_full(&self) -> bool {
             self.len_bytes >= self.capacity
@@ -439,6 +444,16 @@ impl UserRx {
     #[cfg(test)]
     pub fn len_test(&self) -> usize {
         self.shared.locked.lock().queue.len_bytes()
+    }
+
+    #[cfg(librqbit_utp_verif)]
+    pub fn verif_ooq_bytes(&self) -> usize {
+        self.ooq.stored_bytes()
+    }
+
+    #[cfg(librqbit_utp_verif)]
+    pub fn verif_queue_bytes(&self) -> usize {
+        self.shared.locked.lock().queue.verif_len_bytes()
     }
 
     /// Is assembler empty
